@@ -360,6 +360,9 @@ pub fn run(ctx: &Ctx) {
         if !ctx.want(case) {
             continue;
         }
+        // a registration or a producer that blocks for good (router asleep, queue full) ends the batch
+        // through the per-case watchdog instead of hanging it
+        let _g = op_begin("router-scenario", case);
         if global {
             run_case(ctx, &sz, case, &ROUTER, true);
         } else {
